@@ -18,6 +18,7 @@ import (
 	"github.com/ulikunitz/xz"
 	"github.com/ulikunitz/xz/lzma"
 	"verif/internal/hx"
+	"verif/internal/ref"
 	"verif/internal/tlc"
 )
 
@@ -34,6 +35,15 @@ type instance struct {
 type instRun struct {
 	step   func(k int)
 	result func() string
+}
+
+// yieldBuf is a sink that yields the processor before it consumes the bytes handed to it: a
+// writer that passes a buffer it no longer owns gives another goroutine the chance to reuse it.
+type yieldBuf struct{ bytes.Buffer }
+
+func (y *yieldBuf) Write(p []byte) (int, error) {
+	runtime.Gosched()
+	return y.Buffer.Write(p)
 }
 
 func sum(b []byte) string {
@@ -68,7 +78,7 @@ func concInstances(seed int64) []instance {
 	mkWriter := func(name string, open func(w io.Writer) (wcl, error), data []byte, flush bool) instance {
 		parts := split(data, 2)
 		return instance{name, 4, func() *instRun {
-			var buf bytes.Buffer
+			var buf yieldBuf
 			var w wcl
 			var errs []string
 			return &instRun{
@@ -103,6 +113,7 @@ func concInstances(seed int64) []instance {
 			var r io.Reader
 			var out []byte
 			var errs []string
+			var errVals []error
 			return &instRun{
 				step: func(k int) {
 					var e error
@@ -110,6 +121,7 @@ func concInstances(seed int64) []instance {
 						if p := recover(); p != nil {
 							errs = append(errs, fmt.Sprint("panic: ", p))
 						}
+						errVals = append(errVals, e)
 					}()
 					switch k {
 					case 0:
@@ -126,18 +138,38 @@ func concInstances(seed int64) []instance {
 					}
 					errs = append(errs, fmt.Sprint(e))
 				},
-				result: func() string { return sum(out) + fmt.Sprint(len(out), errs) },
+				// the error values are rendered a second time when the run is over: an error
+				// object shared with other readers may have changed in the meantime
+				result: func() string { return sum(out) + fmt.Sprint(len(out), errs, errVals) },
 			}
 		}}
 	}
 	// incompressible data first (stored as raw chunks, coder state rolled back), then compressible
 	// data continuing in the same block/stream; many small blocks with different check types
 	rawThenText := append(MakeData("random", 70000, seed+2), text...)
+	rawWrapped := MakeData("random", 210000, seed+3) // > dictionary + look-ahead: raw chunks are copied out of a wrapped ring
+	// one 6-block stream damaged in block 2 resp. block 5: readers that fail, in different places
+	sixBlocks := libXZ(XZCfg{LC: 3, PB: 2, DictCap: 4096, BufSize: 4096, Check: 1, BlockSize: 5000}, text)
+	damage := func(block int) []byte {
+		xr := ref.DecodeXZ(sixBlocks, ref.XZOpts{})
+		d := append([]byte{}, sixBlocks...)
+		if xr.Err == nil && len(xr.Streams) == 1 && block < len(xr.Streams[0].Blocks) {
+			b := xr.Streams[0].Blocks[block]
+			d[b.CheckOff] ^= 0x55
+		}
+		return d
+	}
 	return []instance{
 		mkWriter("xz-writer-raw-then-text", func(w io.Writer) (wcl, error) {
 			return XZCfg{LC: 3, PB: 2, DictCap: 65536, BufSize: 4096, Check: 4}.lib().NewWriter(w)
 		}, rawThenText, false),
 		mkWriter("lzma2-writer-raw-then-text", func(w io.Writer) (wcl, error) { return lzma.Writer2Config{DictCap: 65536}.NewWriter2(w) }, rawThenText, true),
+		mkWriter("lzma2-writer-raw-wrapped", func(w io.Writer) (wcl, error) { return lzma.Writer2Config{DictCap: 65536}.NewWriter2(w) }, rawWrapped, false),
+		mkWriter("xz-writer-raw-wrapped", func(w io.Writer) (wcl, error) {
+			return XZCfg{LC: 3, PB: 2, DictCap: 65536, BufSize: 4096, Check: 1}.lib().NewWriter(w)
+		}, rawWrapped, false),
+		mkReader("xz-reader-damaged-block2", func(r io.Reader) (io.Reader, error) { return xz.NewReader(r) }, damage(1), len(text)),
+		mkReader("xz-reader-damaged-block5", func(r io.Reader) (io.Reader, error) { return xz.NewReader(r) }, damage(4), len(text)),
 		mkWriter("xz-writer-crc32-blocks", func(w io.Writer) (wcl, error) {
 			return XZCfg{LC: 3, PB: 2, DictCap: 4096, BufSize: 4096, Check: 1, BlockSize: 700}.lib().NewWriter(w)
 		}, text, false),
